@@ -252,6 +252,18 @@ structure Statement : Prop where
     (∀ t ∈ Set.Icc t0 t1, 0 < mtoFin c.a0 c.a1 c.a2 t) →
     (∀ t ∈ Set.Icc t0 t1, predict c.ifmr (mtoFin c.a0 c.a1 c.a2 t) ≤ mtoFin c.a0 c.a1 c.a2 t) →
     (∀ t ∈ Set.Icc t0 t1, HasDerivAt Mtot (massRate c t (out t)) t) → AntitoneOn Mtot (Set.Icc t0 t1)
+  /-- the model's flux and deposit entries are the expressions of `_derivs_sev` in the source now -/
+  source_flux : ∀ nmin Nj aj m1 mto : ℝ, sevDNdm nmin Nj aj m1 mto =
+      if Generated.sev_active mto m1 Nj nmin then
+        (match Pk aj 1 m1 mto with
+         | some p => (Generated.sev_dNdm (Generated.sev_Aj Nj p) mto aj, true)
+         | none => (0, false))
+      else (0, true)
+  source_entries : ∀ dNdm dmdt dNdt mrem frem : ℝ,
+    Generated.sev_dNdt dNdm dmdt = -dNdm * dmdt ∧ Generated.sev_dNr dNdt frem = -dNdt * frem ∧
+    Generated.sev_dMr mrem dNdt frem = -mrem * dNdt * frem ∧
+    Generated.sev_gate mrem dNdt = (Scalar.lt dNdt 0 && Scalar.lt 0 mrem)
+  source_frem : ∀ x : ℝ, Generated.sev_frem_is_table_entry x = 1
   /-- the sweep speed in the flux is the source's expression -/
   speed : ∀ a0 a1 a2 t : ℝ, Generated.dmdt_sev a0 a1 a2 t = dmdtAbs a0 a1 a2 t
 
@@ -262,6 +274,9 @@ theorem C02_partial : Statement where
   spec := fun c t Ns alpha o hn hm hl h => sev_spec c t Ns alpha o hn hm hl h
   conservation := sev_conservation
   contains := turnoff_bin_contains_mto
+  source_flux := Bridge.gen_sevDNdm
+  source_entries := Bridge.gen_sev_entries
+  source_frem := Bridge.gen_frem_is_table_entry
   conserved := number_conserved
   never_grow := stars_never_grow
   mass := mass_never_gained
